@@ -354,7 +354,13 @@ func vfShouldBindJSON(c *gin.Context, obj any) error {
 func vfGinJSON4(c *gin.Context, code int, obj any)      { vfStatus = code }
 func vfGinAbortJSON(c *gin.Context, code int, obj any) { vfStatus = code }
 
+// vfTruncated: the manifest file of this name was left empty by a crash (truncated, never written)
+var vfTruncated *model.Name
+
 func vfParseNamedManifest(n model.Name) (*Manifest, error) {
+	if vfTruncated != nil && *vfTruncated == n {
+		return nil, io.EOF // what json.Decode reports for an empty file
+	}
 	m := vfStore[n]
 	if m == nil {
 		return nil, os.ErrNotExist
